@@ -352,6 +352,52 @@ func scenarios() []scenario {
 			return strings.Join(got, ","), nil
 		}})
 	}
+	// the same draws on tree objects that were indexed and then changed in memory (a tip grafted
+	// on a branch, a tip pruned): every tip of the tree as it is now takes part
+	{
+		four := []string{"a", "b", "c", "d"}
+		out = append(out, scenario{name: "ShuffleTips on (a,b,c) indexed, then tip d grafted on a branch", cells: uniform(perms(four)), run: func(seed int64) (string, error) {
+			t, err := gt.Parse("(a,b,c);")
+			if err != nil {
+				return "", err
+			}
+			if err := t.ReinitIndexes(); err != nil {
+				return "", err
+			}
+			nd := t.NewNode()
+			nd.SetName("d")
+			if _, _, _, err := t.GraftTipOnEdge(nd, t.Edges()[int(seed)%3]); err != nil {
+				return "", err
+			}
+			rand.Seed(seed)
+			t.ShuffleTips()
+			var got []string
+			for _, tip := range t.Tips() {
+				got = append(got, tip.Name())
+			}
+			return strings.Join(got, ","), nil
+		}})
+		three := []string{"a", "b", "c"}
+		out = append(out, scenario{name: "ShuffleTips on (a,b,c,d) indexed, then tip d pruned", cells: uniform(perms(three)), run: func(seed int64) (string, error) {
+			t, err := gt.Parse("(a,b,(c,d));")
+			if err != nil {
+				return "", err
+			}
+			if err := t.ReinitIndexes(); err != nil {
+				return "", err
+			}
+			if err := t.RemoveTips(false, "d"); err != nil {
+				return "", err
+			}
+			rand.Seed(seed)
+			t.ShuffleTips()
+			var got []string
+			for _, tip := range t.Tips() {
+				got = append(got, tip.Name())
+			}
+			return strings.Join(got, ","), nil
+		}})
+	}
 	for _, rooted := range []bool{false, true} {
 		for _, n := range []int{3, 4, 5, 6} {
 			if (n == 3 && !rooted) || (n == 6 && rooted) {
@@ -717,7 +763,7 @@ func scenarios() []scenario {
 }
 
 func TestC20Sweeps(t *testing.T) {
-	r := h.NewRecorder(t, "C20", "sweeps", "seed sweeps: for each scenario (ShuffleTips n=3,4; RotateNeighbors degree 3,4; RandomUniformBinaryTree unrooted n=4,5,6 and rooted n=3,4,5; `gotree sample -n k` for (n,k) in {(2,1),(3,1),(4,2),(5,2),(6,3),(5,5),(4,6)}; `sample --replace` (2,3),(3,2),(4,1),(11,1),(15,1); `prune -r --random 4` on a stream of trees with 6, 3 and 6 tips; `prune --random k` remove/keep; `shuffletips`; `generate uniformtree`) the outcome is recorded for N consecutive seeds (library: rand.Seed(s); commands: --seed s; N = 40000/600 quick, 400000/6000 thorough) and every outcome cell and every 'element i selected' event is tested against its exact probability with an exact two-sided binomial test (per-cell level 1e-13, run-level false alarm probability < 1e-9), plus the support check (every possible outcome occurs; unexpected outcomes are violations). Evaluations = seeds drawn; non-trivial = seeds of scenarios with n > k >= 1 and >= 3 outcome cells")
+	r := h.NewRecorder(t, "C20", "sweeps", "seed sweeps: for each scenario (ShuffleTips n=3,4, also on trees indexed and then grafted / pruned in memory; RotateNeighbors degree 3,4; RandomUniformBinaryTree unrooted n=4,5,6 and rooted n=3,4,5; `gotree sample -n k` for (n,k) in {(2,1),(3,1),(4,2),(5,2),(6,3),(5,5),(4,6)}; `sample --replace` (2,3),(3,2),(4,1),(11,1),(15,1); `prune -r --random 4` on a stream of trees with 6, 3 and 6 tips; `prune --random k` remove/keep; `shuffletips`; `generate uniformtree`) the outcome is recorded for N consecutive seeds (library: rand.Seed(s); commands: --seed s; N = 40000/600 quick, 400000/6000 thorough) and every outcome cell and every 'element i selected' event is tested against its exact probability with an exact two-sided binomial test (per-cell level 1e-13, run-level false alarm probability < 1e-9), plus the support check (every possible outcome occurs; unexpected outcomes are violations). Evaluations = seeds drawn; non-trivial = seeds of scenarios with n > k >= 1 and >= 3 outcome cells")
 	scs := scenarios()
 	var rc Case
 	if replaying, mine := r.ReplayCase(&rc); replaying {
